@@ -62,6 +62,20 @@ Qed.
 Theorem C05_current_tree_cert : has_tag sso_steps TCertCheck = true.
 Proof. vm_compute. reflexivity. Qed.
 
+(** the exact bound on signature values that go unverified (the known findings F-05b / F-05c): in an accepted request a
+    detached Signature parameter that did not verify can only have arrived in a POST form, an enveloped signature value that
+    did not verify only over the Redirect binding -- never in the place its own binding prescribes *)
+Theorem C05_unverified_only_cross_binding : forall c st id, has_tags c tags5 = true -> handler c = Done st [RLogin id] ->
+  exists f a s, e_form = Some f /\ can_req e_form decode = Some a /\ can_sp e_form decode lookup = Some s /\
+    (f_sig f <> [] -> verify_redirect s (f_req f) (f_relay f) (f_sigalg f) (f_sig f) = false -> beq (f_binding f) c_RedirectBinding = false) /\
+    (post_provided (a_signature a) = true -> verify_post s (f_req f) = false -> beq (f_binding f) c_PostBinding = false).
+Proof.
+  intros c st id Ht H. destruct (C05_signatures c st id Ht H) as (f & a & s & E1 & E2 & E3 & Hr & Hp & _).
+  exists f, a, s. split; [exact E1|]. split; [exact E2|]. split; [exact E3|]. split.
+  - intros Hs Hv. destruct (beq (f_binding f) c_RedirectBinding) eqn:Eb; [|reflexivity]. destruct (Hr eq_refl Hs) as [_ V]. congruence.
+  - intros Hs Hv. destruct (beq (f_binding f) c_PostBinding) eqn:Eb; [|reflexivity]. pose proof (Hp eq_refl Hs) as V. congruence.
+Qed.
+
 Theorem C05_current_tree : has_tags sso_steps tags5 = true.
 Proof. vm_compute. reflexivity. Qed.
 End C05.
@@ -93,3 +107,4 @@ Print Assumptions C05_required_forms.
 Print Assumptions C05_current_tree.
 Print Assumptions C05_keyinfo_registered.
 Print Assumptions C05_current_tree_cert.
+Print Assumptions C05_unverified_only_cross_binding.
